@@ -7,6 +7,7 @@ package main
 //      does not reach must be effect-free (no SQL/OS/process/network call, no store through a
 //      non-local pointer, no map update/delete on non-local maps). An effectful function outside the
 //      resolver's reach means a "no path"/"effects of" rule could be blind to a real call path.
+//  T3  every inlined view (inlk.go) the rules analysed passes the SSA sanity and operand-dominance checks.
 //  T2  the change audit: every patch under variants/<id>/ and seeded/<id>-*/ is applied to a scratch
 //      copy of the current tree and the property's quick rules are run on it in a fresh process.
 //      Breaking patches must be reported, benign ones must stay silent; a patch that no longer
@@ -79,6 +80,35 @@ func isEffectful(f *ssa.Function) (string, bool) {
 var t1Exceptions = map[string]string{
 	"(*app.statusWriter).Write":       "access-log wrapper around http.ResponseWriter: records the status on itself and forwards to the wrapped writer; handlers are analysed against the http.ResponseWriter interface (response-sink rules), the wrapper adds no effect on queue, config or auth state",
 	"(*app.statusWriter).WriteHeader": "same wrapper: stores the status code on itself and forwards",
+}
+
+// checkViewsWellFormed (T3): every inlined view this property's rules analysed is structurally valid SSA (go/ssa's
+// own sanity checker) and every operand's definition dominates its use. A malformed view would make a rule decide
+// on a function that is not the program's.
+func checkViewsWellFormed(c *Ctx) {
+	p := c.P
+	rule := c.Prop + ".T3"
+	c.Rule(rule, "inlined views are well-formed (thorough): every view used by this property's rules passes go/ssa's structural checker and the operand-dominance check")
+	n, bad := 0, 0
+	var names []string
+	byName := map[string]*ssa.Function{}
+	for v := range p.views {
+		k := FuncName(p.Orig(v)) + fmt.Sprintf("@%p", v)
+		names = append(names, k)
+		byName[k] = v
+	}
+	sort.Strings(names)
+	for _, k := range names {
+		v := byName[k]
+		n++
+		if pr := ssa.HKSanity(v); len(pr) > 0 {
+			bad++
+			c.Fail(rule, "view of "+FuncName(p.Orig(v)), p.Pos(v.Pos()), "malformed inlined view: "+pr[0])
+		}
+	}
+	if bad == 0 {
+		c.Ok(rule, "views analysed", "", fmt.Sprintf("%d inlined view(s), all well-formed", n))
+	}
 }
 
 func checkResolverCompleteness(c *Ctx) {
